@@ -55,7 +55,8 @@ try:
                     passed.add("%s::%s" % (tc.get("classname"), tc.get("name")))
             res["baseline_missing"] = sorted(want - passed)[:5]
         for p in props:
-            cenv = dict(os.environ, NIMASIM_REPO=wt, PYTHONHASHSEED="0", NIMASIM_REPLAY_DIR=os.path.join(wt, "replays"), NIMASIM_EVIDENCE_DIR=os.path.join(wt, "evidence"))
+            cenv = dict(os.environ, NIMASIM_REPO=wt, PYTHONHASHSEED="0", NIMASIM_REPLAY_DIR=os.path.join(wt, "replays"), NIMASIM_EVIDENCE_DIR=os.path.join(wt, "evidence"),
+                        NIMASIM_STOP_AFTER_VIOLATIONS=os.environ.get("NIMASIM_STOP_AFTER_VIOLATIONS", "8"))
             c = subprocess.run(["/venv/bin/python", "-m", "nimasim", "check", "--property", p, "--tier", args.tier], cwd="/verif", env=cenv, capture_output=True, text=True, timeout=7200)
             lines = [l for l in c.stdout.splitlines() if l.startswith("VIOLATION") or l.startswith("  oracle=") or l.startswith("ERROR")]
             res["check_" + p] = {"rc": c.returncode, "lines": [l[:200] for l in lines[:6]]}
